@@ -133,6 +133,25 @@ reg("C13", "exploration",
 reg("C01","exploration","Exhaustive product lattices of executions of the real single-point driver: method {MNDO,AM1,PM3,PM6_SP} x {every hydride of the union element alphabet, every heavy-element pair H_nX-YH_m of the method's table at bond scales {0.8,1,1.3}, nine named multi-heavy molecules, the repository's own test geometry} x orientation {documentation layout = bonds on x, generic} x evaluator {autodiff, analytical, semi-numerical}; on a 6-10 molecule sub-alphabet the full product SCF converger x SP2 x {RHF neutral, RHF ion, UHF doublet, UHF triplet} x active state {S0, CIS S1/S2, RPA S1} x layout {single, homogeneous, zero-padded mixed}. Oracle per point: force = minus a 4-point central difference (h=2e-3 A, 12N geometries as one batched call) of the returned Etot, pairwise agreement of evaluators, exact zeros on padding rows; disagreements confirmed with single-molecule calls and attributed by two probes (0.02 rad tilt; h_pp floor applied in w_der from the harness).","Trusted: the package's energy as the differentiated function (its model conformance is C06), numpy. Bounds: stated geometry alphabet, scf_eps 1e-10, CIS tol 1e-8, SP2 tol 1e-7; tolerance 1e-5 (5e-5 for evaluators that difference integrals internally with delta=1e-5 A; +5000x SP2/CIS tolerance); points whose stencil energies are not on one smooth surface (SCF multi-solution) or whose active state is degenerate are excluded and counted; excited-state back-propagated forces and GPU not explored. Known finding: frozen local frame for bonds within 1e-7 of +-x.","explicit enumeration of a finite configuration lattice on the real code with a finite-difference differential oracle","DESIGN.md section 4, C01")
 reg("C14","exploration","Exhaustive product lattice method {MNDO,AM1,PM3,PM6_SP,(PM6)} x 40 molecules (closed shells, ions, doublets, triplets) x SCF converger x SP2 x {RHF,UHF} x active state {S0, CIS S1/S2, RPA S1} x {force, energy only} x orientation x layout {(x,x+t) pair, zero-padded mixed}; for every molecule of every call numpy recomputes Etot=Eelec+Enuc(+Eexc), Eiso from the CSV tables, Hf with an own copy of the published atomic heats, ascending e_mo, gap, e_mo = eig of the Fock matrix rebuilt from the returned density, Eelec=trP(H+F)/2, charges from diagonal blocks, sum q = charge, zero padding charge, dipole = charges + sp-hybrid term, d(x+t)-d(x)=Qt.","Trusted: numpy eigvalsh, the package's hcore/fock as 'the reported Fock operator' (model conformance is C06), published MOPAC constants copied into the oracle (cross-checked against CODATA to 1e-4). Bounds: stated alphabet; PM6 without dipole/Fock rebuild.","explicit enumeration of a finite configuration lattice on the real code with algebraic identity oracles","DESIGN.md section 4, C14")
 
+reg(
+    "C07",
+    "exploration",
+    "Exhaustive product lattice method (MNDO/AM1/PM3) x molecule (H2O, H2CO, CH3Cl with degenerate orbitals, N2H4 with a like heavy pair) x "
+    "base point (table values with exactly coinciding exponents, shifted) x every learnable parameter name (parameterlist + Kbeta) x tensor kind "
+    "(leaf, non-leaf network head, callable of species/coordinates with geometry-dependent parameters) x scf_backward (0,1,2) x solver "
+    "(fixed 0.3, adaptive, Pulay) x output (Etot, Hf, e_mo, gap, charges) x order (1, 2). Every point is executed on the real Molecule/Energy/"
+    "Electronic_Structure code: torch.autograd.grad w.r.t. the caller's root tensors must be non-None, finite and equal, along a fixed direction, "
+    "to a Richardson finite difference (stencil 2h,h,h/2 with error estimate) of the same output; callable kind: forces include the parameters' "
+    "geometry dependence; scf_backward=2: Hessian-vector product, mixed force/parameter derivatives and the full unrolled Hessian equal the FD of "
+    "the driver's forces and are symmetric. Batched finite differences are redone with single-molecule calls in fresh processes before a report.",
+    "Trusted: torch autograd on the harness-side head/callable; finite differences of the package's own outputs at scf_eps 1e-11 (points whose "
+    "stencil error estimate exceeds the limit are excluded and counted). Bounds: one fixed generic direction per name, fixed generic weights for "
+    "e_mo/q, 4 molecules, closed-shell RHF, CPU float64; scf_backward=0 only for Etot/Hf, order 2 only for scf_backward=2. Tolerance 1e-5 "
+    "(1e-4 implicit adjoint) relative + documented FD-noise floors; measured head-room >= 3.7x.",
+    "explicit enumeration of a finite configuration lattice on the real differentiable code, each point checked against finite differences of the same code",
+    "DESIGN.md section 4, C07",
+)
+
 ALL = [f"C{i:02d}" for i in range(1, 21)]
 
 
